@@ -84,6 +84,10 @@ pub enum AbsOp {
     Fill { t: u16, n: u8 },
     /// allocate n blocks through n auxiliary one-entry topics (cheap)
     Touch { n: u8 },
+    /// begin / end a transient outage of the marker file: while it lasts the marker store's
+    /// temporary file cannot be created (a directory occupies its name); it always ends before
+    /// the instance is shut down
+    MarkerOutage { on: bool },
 }
 
 #[derive(Clone, Debug, Serialize, Deserialize, PartialEq, Eq, Hash)]
